@@ -10,7 +10,7 @@ import gen
 from cases import CaseSet, rng_for, pick_semiring, close
 
 PID = "C01"
-KINDS = ["emb", "cat_probs", "cat_logits", "cat_softmax", "bin", "gau", "poly"]
+KINDS = ["emb", "cat_probs", "cat_logits", "cat_softmax", "cat_softmax0", "bin", "gau", "poly"]
 
 
 def num_folds(cc):
